@@ -263,6 +263,7 @@ def stepOp (cfg : Cfg) (o : Op) (s : State) : State × Option Err :=
 /-- `self._save_context` -/
 structure Saved where
   defaultWs : String
+  builtinWs : List (List Char) -- [(expr, set(expr.whiteChars)) for expr in _builtin_exprs] (objects by position)
   kwChars : String
   litCls : Nat
   verbose : Bool
@@ -289,9 +290,10 @@ def saveRaises (s : State) : Bool := s.packratEnabled && s.cache.kind == .null
 /-- the names `save()` records for `__compat__` (testing.py:77-79) -/
 def compatSavedNames : List String := ["collect_all_And_tokens"]
 
-/-- testing.py:50-81 -/
+/-- testing.py:50-84 -/
 def save (cfg : Cfg) (s : State) : Saved :=
   { defaultWs := s.defaultWs
+    builtinWs := s.builtins.map (·.ws)
     kwChars := s.kwChars
     litCls := s.litCls
     verbose := s.verbose
@@ -316,11 +318,22 @@ def restoreCompat : Flags → Flags → Flags
   | [], fl => fl
   | (n, v) :: rest, fl => restoreCompat rest (setFlag n v fl)
 
-/-- testing.py:83-118, statement by statement; on an exception the partially restored state and
+/-- `for expr, white_chars in saved["builtin_whitespace"]: expr.whiteChars = white_chars`
+    (the saved pairs hold the built-in *objects*; the list of built-ins never changes, so by position) -/
+def assignWs : List Expr → List (List Char) → List Expr
+  | e :: es, w :: ws => { e with ws := w } :: assignWs es ws
+  | es, _ => es
+
+/-- testing.py:88-97: undo a changed default, then put every built-in's own set back -/
+def restoreWs (sv : Saved) (t : State) : State :=
+  let t := if t.defaultWs != sv.defaultWs then setDefaultWs sv.defaultWs t else t
+  { t with builtins := assignWs t.builtins sv.builtinWs }
+
+/-- testing.py:86-124, statement by statement; on an exception the partially restored state and
     the exception are returned -/
 def restore (cfg : Cfg) (sv : Saved) (t : State) : State × Option Err :=
-  -- :85-91
-  let t := if t.defaultWs != sv.defaultWs then setDefaultWs sv.defaultWs t else t
+  -- :88-97
+  let t := restoreWs sv t
   -- :93
   let t := { t with verbose := sv.verbose }
   -- :95
@@ -353,14 +366,17 @@ def restore (cfg : Cfg) (sv : Saved) (t : State) : State × Option Err :=
 
 inductive Cmd where
   | op (o : Op)
-  | enter    -- `ctx = reset_pyparsing_context(); ctx.__enter__()`
-  | exit     -- innermost open context `.__exit__()`
+  | enter (reuse : Bool)   -- `ctx.__enter__()` on a new `reset_pyparsing_context()`; `reuse`: on the most
+                           -- recently exited context *object* instead (its saved context is overwritten)
+  | exit (viaCopy : Bool)  -- innermost open context: `ctx.__exit__()`; `viaCopy`: `ctx.copy().restore()`
+  | restoreLast            -- `.restore()` once more on the most recently exited context object
   deriving DecidableEq, Repr, Inhabited
 
 structure Mach where
   st : State
   stack : List Saved
   ctxErr : Bool      -- did any `__enter__` / `__exit__` raise so far
+  last : Option Saved  -- `_save_context` of the most recently exited context object (if not re-entered since)
   deriving DecidableEq, Repr, Inhabited
 
 /-- one command; second component: the exception it raised, if any -/
@@ -369,15 +385,23 @@ def stepCmd (cfg : Cfg) (c : Cmd) (m : Mach) : Mach × Option Err :=
   | .op o =>
     let r := stepOp cfg o m.st
     ({ m with st := r.1 }, r.2)
-  | .enter =>
+  | .enter reuse =>
+    -- `save()` assigns every key of `_save_context`, so a re-used object behaves like a new one
     if saveRaises m.st then ({ m with ctxErr := true }, some .attribute)
-    else ({ m with stack := save cfg m.st :: m.stack }, none)
-  | .exit =>
+    else ({ m with stack := save cfg m.st :: m.stack, last := if reuse then none else m.last }, none)
+  | .exit _ =>
+    -- `copy()` (testing.py:126-129) copies `_save_context`, so restoring through the copy is the same
     match m.stack with
     | [] => (m, none)
     | sv :: rest =>
       let r := restore cfg sv m.st
-      ({ st := r.1, stack := rest, ctxErr := m.ctxErr || r.2.isSome }, r.2)
+      ({ st := r.1, stack := rest, ctxErr := m.ctxErr || r.2.isSome, last := some sv }, r.2)
+  | .restoreLast =>
+    match m.last with
+    | none => (m, none)
+    | some sv =>
+      let r := restore cfg sv m.st
+      ({ m with st := r.1, ctxErr := m.ctxErr || r.2.isSome }, r.2)
 
 def run (cfg : Cfg) : List Cmd → Mach → Mach
   | [], m => m
